@@ -300,6 +300,27 @@ func (w *world) run(op Op) string {
 		}
 		b, _ := json.Marshal(v)
 		return "visit-valid:" + string(b)
+	case "match", "visit-typed":
+		// the option-less helpers: IsMatching and the typed VisitJSON* entry points
+		var v any
+		bs := w.bodies()
+		_ = json.Unmarshal([]byte(bs[op.Variant%len(bs)]), &v)
+		item := w.doc.Components.Schemas["Item"].Value
+		if op.Kind == "match" {
+			if op.Variant%2 == 0 {
+				if obj, ok := v.(map[string]any); ok {
+					return fmt.Sprint("match-object:", item.IsMatchingJSONObject(obj))
+				}
+			}
+			return fmt.Sprint("match:", item.IsMatching(v))
+		}
+		if obj, ok := v.(map[string]any); ok {
+			if err := item.VisitJSONObject(obj); err != nil {
+				return "visit-typed-invalid"
+			}
+			return "visit-typed-valid"
+		}
+		return "visit-typed-not-an-object"
 	case "gen":
 		t := w.types[op.Variant%len(w.types)]
 		ref, err := openapi3gen.NewSchemaRefForValue(reflect.New(t).Elem().Interface(), openapi3.Schemas{})
@@ -416,7 +437,7 @@ func trunc(s string) string {
 	return s
 }
 
-var opKinds = []string{"route-g", "route-l", "request", "request", "request-skip", "request-ci", "response", "visit", "visit-multi", "visit-req", "visit-ci", "gen"}
+var opKinds = []string{"route-g", "route-l", "request", "request", "request-skip", "request-ci", "response", "visit", "visit-multi", "visit-req", "visit-ci", "gen", "match", "match", "visit-typed"}
 
 func caseInsensitive(expr string) (openapi3.RegexMatcher, error) {
 	return regexp.Compile("(?i)" + expr)
